@@ -156,7 +156,7 @@ int main(int argc, char **argv) {
         plan["run_seed"] = J(static_cast<unsigned long long>(idx));
         plan["fixed_index"] = J(static_cast<unsigned long long>(idx));
       } else {
-        const uint64_t run_seed = mix(seed, wtag, idx);
+        const uint64_t run_seed = mix(seed, wtag, idx) >> 1;
         plan = w->generate(run_seed, tier);
         plan["world"] = J(world);
         plan["run_seed"] = J(static_cast<unsigned long long>(run_seed));
